@@ -1,6 +1,7 @@
 """Reference semantics for IRV assertions (NEB / NEN), written from the RAIRE paper's definitions on plain
 preference lists (most preferred first).  Used by C04, C14, C15, C20."""
 import itertools
+import math
 
 
 def neb_votes(w, l, b):
@@ -55,7 +56,7 @@ def alternative_orders(cands, winner):
 def min_max_difficulty(cands, winner, true_assertions):
     """min over sufficient sets of the largest difficulty = max over alternative orders of the cheapest true
     assertion contradicting it; None if some order is contradicted by no true assertion (audit impossible)."""
-    best = 0.0
+    best = -math.inf   # (difficulty functions may take non-positive values)
     for o in alternative_orders(cands, winner):
         ds = [a[6] for a in true_assertions if contradicts(a, o)]
         if not ds:
